@@ -18,6 +18,20 @@ theorem isKnownEphemeral_eq (t : Taint) : isKnownEphemeral t = isEphemeral t := 
   rw [ephemeral_table, ephemeral_prefixes, List.any_map]
   rfl
 
+theorem matches_eq_sameTaint (a b : Taint) : a.matches b = sameTaint a b := rfl
+
+theorem hasMatch_eq_carries (ts : List Taint) (t : Taint) : hasMatch ts t = carries ts t := rfl
+
+theorem matches_comm (a b : Taint) : a.matches b = b.matches a := by
+  unfold Taint.matches
+  rw [Bool.beq_comm (a := a.key), Bool.beq_comm (a := a.effect)]
+
+/-- `MatchTaint` only looks at key and effect: two taints that match each other match the same third taints -/
+theorem matches_trans {a b c : Taint} (hab : a.matches b = true) (hbc : b.matches c = true) : a.matches c = true := by
+  unfold Taint.matches at *
+  simp only [Bool.and_eq_true, beq_iff_eq] at *
+  exact ⟨hab.1.trans hbc.1, hab.2.trans hbc.2⟩
+
 theorem mem_mergeTaints_left (w ts : List Taint) (t : Taint) (h : t ∈ ts) : t ∈ mergeTaints ts w := by
   unfold mergeTaints
   induction w generalizing ts with
@@ -29,50 +43,86 @@ theorem mem_mergeTaints_left (w ts : List Taint) (t : Taint) (h : t ∈ ts) : t 
     · exact h
     · exact List.mem_append_left _ h
 
-theorem mem_mergeTaints_right (w ts : List Taint) (t : Taint) (h : t ∈ w) : t ∈ mergeTaints ts w := by
-  unfold mergeTaints
+/-- `Taints.Merge` never drops a taint, so what was matched stays matched -/
+theorem hasMatch_mergeTaints_left (w ts : List Taint) (t : Taint) (h : hasMatch ts t = true) :
+    hasMatch (mergeTaints ts w) t = true := by
+  unfold hasMatch at *
+  rw [List.any_eq_true] at *
+  obtain ⟨x, hx, hm⟩ := h
+  exact ⟨x, mem_mergeTaints_left w ts x hx, hm⟩
+
+/-- after `Taints.Merge` every merged-in taint is on the list *by key and effect*: itself, or the taint that was
+    already there with the same key and effect (whose value and `timeAdded` are kept) -/
+theorem hasMatch_mergeTaints_right (w ts : List Taint) (t : Taint) (h : t ∈ w) : hasMatch (mergeTaints ts w) t = true := by
   induction w generalizing ts with
   | nil => simp at h
   | cons x xs ih =>
-    simp only [List.foldl_cons]
+    have hstep : mergeTaints ts (x :: xs) = mergeTaints (if hasMatch ts x then ts else ts ++ [x]) xs := by
+      simp [mergeTaints, List.foldl_cons]
+    rw [hstep]
     rcases List.mem_cons.mp h with rfl | h
-    · have := mem_mergeTaints_left xs (if ts.contains t = true then ts else ts ++ [t]) t (by
-        split
-        · rename_i hc; simpa using hc
-        · simp)
-      unfold mergeTaints at this
-      exact this
+    · apply hasMatch_mergeTaints_left
+      split
+      · rename_i hc; exact hc
+      · unfold hasMatch
+        rw [List.any_eq_true]
+        exact ⟨t, by simp, by simp [Taint.matches]⟩
     · exact ih _ h
 
+/-- a taint that does not match the unregistered taint survives its removal, in the specification's sense -/
+theorem carries_filter_unregistered (ts : List Taint) (t : Taint) (hclean : t.matches unregistered = false)
+    (h : hasMatch ts t = true) : carries (ts.filter (fun x => !x.matches unregistered)) t = true := by
+  unfold hasMatch at h
+  unfold carries
+  rw [List.any_eq_true] at *
+  obtain ⟨x, hx, hm⟩ := h
+  refine ⟨x, ?_, hm⟩
+  rw [List.mem_filter]
+  refine ⟨hx, ?_⟩
+  cases hxu : x.matches unregistered
+  · rfl
+  · rw [matches_trans hm hxu] at hclean; cases hclean
+
+/-- whatever value or `timeAdded` the unregistered taint carried: after the removal no taint with its key and
+    effect is left -/
+theorem carries_filter_unregistered_none (ts : List Taint) :
+    carries (ts.filter (fun x => !x.matches unregistered)) unregisteredTaint = false := by
+  unfold carries
+  rw [List.any_eq_false]
+  intro x hx
+  rw [List.mem_filter] at hx
+  have h := hx.2
+  rw [← unregistered_eq, ← matches_eq_sameTaint, matches_comm]
+  simpa using h
+
 theorem registeredPre_registerNode (sp : Spec) (m : Claim) (n : Node) (hpl : m.provLabels = true)
-    (h1 : unregistered ∉ sp.taints) (h2 : unregistered ∉ sp.startup) :
+    (h1 : cleanTaints sp.taints) (h2 : cleanTaints sp.startup) :
     registeredPre sp [registerNode sp m n] = true ∧
     registeredPre sp [{ registerNode sp m n with initLabel := true }] = true := by
   have key : ∀ t, t ∈ sp.taints ∨ t ∈ sp.startup → n.doNotSync = false →
-      t ∈ (registerNode sp m n).taints := by
+      carries (registerNode sp m n).taints t = true := by
     intro t ht hd
-    have hne : t ≠ unregistered := by
-      rintro rfl
+    have hne : t.matches unregistered = false := by
       rcases ht with ht | ht
-      · exact h1 ht
-      · exact h2 ht
+      · exact h1 t ht
+      · exact h2 t ht
     simp only [registerNode, hd]
-    simp only [Bool.false_eq_true, if_false, List.mem_filter]
-    refine ⟨?_, by simpa using hne⟩
+    simp only [Bool.false_eq_true, if_false]
+    apply carries_filter_unregistered _ _ hne
     rcases ht with ht | ht
-    · exact mem_mergeTaints_left _ _ _ (mem_mergeTaints_right _ _ _ ht)
-    · exact mem_mergeTaints_right _ _ _ ht
-  have hun : (registerNode sp m n).taints.contains unregisteredTaint = false := by
-    rw [← unregistered_eq]
-    simp [registerNode, List.mem_filter]
+    · exact hasMatch_mergeTaints_left _ _ _ (hasMatch_mergeTaints_right _ _ _ ht)
+    · exact hasMatch_mergeTaints_right _ _ _ ht
+  have hun : carries (registerNode sp m n).taints unregisteredTaint = false := by
+    simp only [registerNode]
+    exact carries_filter_unregistered_none _
   have hsync : (registerNode sp m n).doNotSync = true ∨
-      (sp.taints.all (fun t => (registerNode sp m n).taints.contains t) = true ∧
-       sp.startup.all (fun t => (registerNode sp m n).taints.contains t) = true) := by
+      (sp.taints.all (fun t => carries (registerNode sp m n).taints t) = true ∧
+       sp.startup.all (fun t => carries (registerNode sp m n).taints t) = true) := by
     cases hd : n.doNotSync
     · right
       constructor
-      · simp only [List.all_eq_true]; intro t ht; simpa using key t (Or.inl ht) hd
-      · simp only [List.all_eq_true]; intro t ht; simpa using key t (Or.inr ht) hd
+      · simp only [List.all_eq_true]; intro t ht; exact key t (Or.inl ht) hd
+      · simp only [List.all_eq_true]; intro t ht; exact key t (Or.inr ht) hd
     · left; simp [registerNode, hd]
   have hflags : (registerNode sp m n).regLabel = true ∧ (registerNode sp m n).finalizer = true ∧
       (registerNode sp m n).ownerRef = true ∧ (registerNode sp m n).userLabels = true ∧
@@ -82,15 +132,15 @@ theorem registeredPre_registerNode (sp : Spec) (m : Claim) (n : Node) (hpl : m.p
   · simp only [registeredPre, hun, hflags.1, hflags.2.1, hflags.2.2.1, hflags.2.2.2.1, hflags.2.2.2.2]
     rcases hsync with hs | ⟨hs1, hs2⟩
     · simp [hs]
-    · simp only [List.all_eq_true] at hs1 hs2
-      simp only [Bool.true_and, Bool.or_eq_true, Bool.and_eq_true, List.all_eq_true, Bool.not_false]
-      exact Or.inr ⟨hs1, hs2⟩
+    · simp [hs1, hs2]
   · simp only [registeredPre, hun, hflags.1, hflags.2.1, hflags.2.2.1, hflags.2.2.2.1, hflags.2.2.2.2]
     rcases hsync with hs | ⟨hs1, hs2⟩
     · simp [hs]
-    · simp only [List.all_eq_true] at hs1 hs2
-      simp only [Bool.true_and, Bool.or_eq_true, Bool.and_eq_true, List.all_eq_true, Bool.not_false]
-      exact Or.inr ⟨hs1, hs2⟩
+    · simp [hs1, hs2]
+
+theorem ready_eq_nodeIsReady (n : Node) : n.ready = nodeIsReady n := by
+  unfold Node.ready nodeIsReady
+  cases n.readyCond <;> rfl
 
 theorem initializedPre_of_blocker (sp : Spec) (n : Node) (h : initBlocker sp n = none) :
     initializedPre sp [{ n with initLabel := true }] = true := by
@@ -105,18 +155,93 @@ theorem initializedPre_of_blocker (sp : Spec) (n : Node) (h : initBlocker sp n =
   rename_i hres
   simp only [initializedPre]
   simp at hr
+  have hr' : nodeIsReady { n with initLabel := true } = true := by
+    rw [← ready_eq_nodeIsReady]; exact hr
   unfold firstStartupTaint at hs
   unfold firstEphemeralTaint at he
-  rw [List.find?_eq_none] at hs he
-  simp only [hr, Bool.true_and, Bool.and_eq_true, List.all_eq_true]
+  rw [List.findSome?_eq_none_iff] at hs
+  rw [List.find?_eq_none] at he
+  simp only [hr', Bool.true_and, Bool.and_eq_true, List.all_eq_true]
   refine ⟨⟨?_, ?_⟩, ?_⟩
-  · intro s hs'; simpa using hs s hs'
+  · intro s hs'
+    have := hs s hs'
+    rw [List.find?_eq_none] at this
+    simp only [Bool.not_eq_true', carries, List.any_eq_false]
+    intro x hx
+    simpa [sameTaint, Taint.matches] using this x hx
   · intro t ht; have := he t ht; rw [isKnownEphemeral_eq] at this; simpa using this
   · simp at hres
     cases hw : sp.wantsRes
     · simp
     · simp [hres hw]
 
+/-! ### what the two preconditions say about the Node, in plain terms; the two gates -/
+
+theorem registeredPre_elim {sp : Spec} {nodes : List Node} (h : registeredPre sp nodes = true) :
+    ∃ n, nodes = [n] ∧ n.regLabel = true ∧
+      ∀ t ∈ n.taints, ¬(t.key = "karpenter.sh/unregistered" ∧ t.effect = "NoExecute") := by
+  unfold registeredPre at h
+  split at h
+  · rename_i n
+    simp only [Bool.and_eq_true, Bool.not_eq_true'] at h
+    refine ⟨n, rfl, h.1.1.1.1.1.1, ?_⟩
+    have hc := h.1.1.1.1.1.2
+    unfold carries at hc
+    rw [List.any_eq_false] at hc
+    intro t ht ⟨hk, he⟩
+    apply hc t ht
+    simp [sameTaint, unregisteredTaint, hk, he]
+  · simp at h
+
+theorem initializedPre_elim {sp : Spec} {nodes : List Node} (h : initializedPre sp nodes = true) :
+    ∃ n, nodes = [n] ∧ n.readyCond = .true_ ∧
+      (∀ s ∈ sp.startup, ∀ t ∈ n.taints, ¬(t.key = s.key ∧ t.effect = s.effect)) ∧
+      (∀ t ∈ n.taints, isEphemeral t = false) ∧ (sp.wantsRes = true → n.resOK = true) := by
+  unfold initializedPre at h
+  split at h
+  · rename_i n
+    simp only [Bool.and_eq_true, Bool.or_eq_true, Bool.not_eq_true', List.all_eq_true] at h
+    obtain ⟨⟨⟨hr, hs⟩, he⟩, hres⟩ := h
+    refine ⟨n, rfl, ?_, ?_, ?_, ?_⟩
+    · unfold nodeIsReady at hr
+      cases hrc : n.readyCond <;> simp [hrc] at hr
+      rfl
+    · intro s hs' t ht ⟨hk, hef⟩
+      have := hs s hs'
+      unfold carries at this
+      rw [List.any_eq_false] at this
+      apply this t ht
+      simp [sameTaint, hk, hef]
+    · intro t ht; exact he t ht
+    · intro hw
+      rcases hres with h | h
+      · rw [hw] at h; cases h
+      · exact h
+  · simp at h
+
+/-- the Ready gate of `Initialization.Reconcile`: a Ready condition that is `Unknown`, `False` or was never posted
+    blocks, with the reason `NodeNotReady`, before anything else is looked at -/
+theorem initBlocker_not_ready (sp : Spec) (n : Node) (h : n.readyCond ≠ .true_) :
+    initBlocker sp n = some .nodeNotReady := by
+  unfold initBlocker Node.ready
+  cases hrc : n.readyCond <;> simp_all
+
+/-- `registerNode` leaves no taint with the unregistered taint's key and effect, whatever value / `timeAdded` -/
+theorem registerNode_unregistered_gone (sp : Spec) (m : Claim) (n : Node) :
+    ∀ t ∈ (registerNode sp m n).taints, t.matches unregistered = false := by
+  intro t ht
+  simp only [registerNode, List.mem_filter] at ht
+  simpa using ht.2
+
+/-- `Initialization.Reconcile` on a node that is not Ready: no write, Initialized stays Unknown -/
+theorem initialization_not_ready (sp : Spec) (f : Faults) (c : Ctx) (n : Node)
+    (hi : c.mem.conds.i.status = .unknown) (hr : c.mem.conds.r.status = .true_) (hp : c.mem.providerID = true)
+    (hl : f.nodeList = false) (hn : c.w.nodes = [n]) (hrc : n.readyCond ≠ .true_) :
+    (initialization sp f c).calls = c.calls ∧ (initialization sp f c).w = c.w ∧
+    (initialization sp f c).mem.conds.i.status = .unknown ∧
+    (initialization sp f c).mem.conds.i.reason = .nodeNotReady := by
+  have hb := initBlocker_not_ready sp n hrc
+  simp [initialization, hi, hr, nodeForInit, hp, hl, hn, hb, Ctx.setI, Cond.set]
 /-! ### conditions that become true in a pass -/
 
 theorem runSubs_flips (sp : Spec) (f : Faults) (co : CreateOutcome) {w w0 : World} {m0 : Claim}
@@ -124,7 +249,7 @@ theorem runSubs_flips (sp : Spec) (f : Faults) (co : CreateOutcome) {w w0 : Worl
     (hw0c : w0.claim.conds = w.claim.conds) (hw0cache : w0.cache = w.cache) (hw0inst : w0.instances = w.instances)
     (hm0 : VOK m0)
     (hm0v : ∃ v ∈ w.versions, m0.conds = v.conds ∧ m0.providerID = v.providerID ∧ m0.provLabels = v.provLabels)
-    (h1 : unregistered ∉ sp.taints) (h2 : unregistered ∉ sp.startup) :
+    (h1 : cleanTaints sp.taints) (h2 : cleanTaints sp.startup) :
     ((runSubs sp f co w0 m0 calls).w.claim.conds.r.status = .true_ → w.claim.conds.r.status ≠ .true_ →
       m0.conds.r.status = .true_ ∨ registeredPre sp (runSubs sp f co w0 m0 calls).w.nodes = true) ∧
     ((runSubs sp f co w0 m0 calls).w.claim.conds.i.status = .true_ → w.claim.conds.i.status ≠ .true_ →
@@ -683,7 +808,7 @@ theorem vok_withFinalizer {c : Claim} (h : VOK c) : VOK { c with finalizer := tr
   ⟨h.ir, h.rl, h.pl, h.lp, h.ppl, h.lnf, fun _ => rfl⟩
 
 theorem reconcileLive_flips (sp : Spec) (f : Faults) (co : CreateOutcome) {w : World} (h : Inv w) (view : Claim)
-    (hv : view ∈ w.versions) (h1 : unregistered ∉ sp.taints) (h2 : unregistered ∉ sp.startup) :
+    (hv : view ∈ w.versions) (h1 : cleanTaints sp.taints) (h2 : cleanTaints sp.startup) :
     ((reconcileLive sp f co w view).w.claim.conds.r.status = .true_ → w.claim.conds.r.status ≠ .true_ →
       view.conds.r.status = .true_ ∨ registeredPre sp (reconcileLive sp f co w view).w.nodes = true) ∧
     ((reconcileLive sp f co w view).w.claim.conds.i.status = .true_ → w.claim.conds.i.status ≠ .true_ →
